@@ -77,9 +77,7 @@ def mk_solution(state, op, mark0, fresh_obj=True):
     rk = mk_int_list(state, 'sol_rk', d + 1)
     cs = SList(fresh('sol_cores_ref'), d, fn=sym_elem_fn('arr', state), kind='arr')
     t = STT(fresh('sol_ref'), d, rd, cd, rk, cs)
-    state.assume(FA(0, d, lambda j: z3.And(lst_get(rd, j) == lst_get(op.col_dims, j), lst_get(cd, j) == 1)))
-    state.assume(FA(0, d + 1, lambda j: lst_get(rk, j) >= 1))
-    state.assume(lists_distinct(t))
+    # nothing is assumed here: what the helpers may rely on is stated by _Helper.domain (obliged at every call site)
     # the working copy is owned by the solver: the helpers may write its lists
     return t
 
@@ -90,16 +88,49 @@ def square(op):
 
 class _Helper(Contract):
     file, cls = FILE, None
+    auto_valid = False      # the working solution is inside a dirty window: the helpers state exactly which cores are consistent
     props = ('C07', 'C06', 'C11')
 
     def base(self, ex, state):
         m0 = ex.ctx.mark0
-        op = mk_tt(state, 'operator', m0)
-        state.assume(square(op))
+        if 'operator' in getattr(self, 'param_names', ['operator']):
+            op = mk_tt(state, 'operator', m0)
+        else:
+            import types
+            op = types.SimpleNamespace(order=fresh('order'))      # the helper has no operator parameter: only the order is shared
         sol = mk_solution(state, op, m0)
         i = fresh('i')
-        state.assume(z3.And(i >= 0, i < zi(op.order)))
         return op, sol, i
+
+    def domain(self, S):
+        """what the private helpers rely on about their arguments (the working solution is owned by the solver: no
+        allocation facts, only its metadata)"""
+        from vt.e1.contract import type_domain
+        a, m0 = S.a, S.mark0
+        op, rhs, sol, i = a.get('operator'), a.get('right_hand_side'), a['solution'], zi(a['i'])
+        d = zi(sol.order)
+        for k, v in (('operator', op), ('right_hand_side', rhs)):
+            if v is not None:
+                yield from type_domain(k, v, m0)
+                yield 'order(%s)==order(solution)' % k, zi(v.order) == d
+        for k, v in a.items():
+            if isinstance(v, SList) or isinstance(v, SArr):
+                for lbl, g in type_domain(k, v, m0):
+                    if lbl.startswith('model:'):
+                        yield lbl, g
+        if op is not None:
+            yield 'square-operator', square(op)
+        yield 'solution-metadata', z3.And(d >= 1, zi(sol.row_dims.len_term()) == d, zi(sol.col_dims.len_term()) == d, zi(sol.ranks.len_term()) == d + 1,
+                                          zi(sol.cores.len_term()) == d, lists_distinct(sol))
+        yield 'solution-dims', FA(0, d, lambda j: z3.And(lst_get(sol.row_dims, j) >= 1, lst_get(sol.col_dims, j) == 1,
+                                                         *([lst_get(sol.row_dims, j) == lst_get(op.col_dims, j)] if op is not None else []),
+                                                         *([lst_get(sol.row_dims, j) == lst_get(rhs.row_dims, j), lst_get(rhs.col_dims, j) == 1] if rhs is not None else [])))
+        yield 'solution-ranks>=1', FA(0, d + 1, lambda j: lst_get(sol.ranks, j) >= 1)
+        yield 'i-in-range', z3.And(i >= 0, i < d)
+        mr = a.get('max_rank')
+        if isinstance(mr, SMaxRank):
+            yield 'max_rank>=1', z3.Or(mr.is_inf, mr.val >= 1)
+        yield from self.domain_extra(S)
 
     def modifies(self, S):
         return [S.o[self.stack_name].ref], []
@@ -191,7 +222,6 @@ class StackLeftRhs(_StackHelper):
     def setup(self, ex, state, inst):
         op, sol, i = self.base(ex, state)
         rhs = mk_tt(state, 'right_hand_side', ex.ctx.mark0, order=op.order)
-        state.assume(z3.And(same_ints(rhs.row_dims, op.row_dims, zi(op.order)), FA(0, zi(op.order), lambda j: lst_get(rhs.col_dims, j) == 1)))
         return {'i': i, 'stack_left_rhs': mk_stack(state, 'stack_left_rhs', zi(op.order), 2, ex.ctx.mark0), 'right_hand_side': rhs, 'solution': sol}
 
     def requires(self, S):
@@ -213,7 +243,6 @@ class StackRightRhs(_StackHelper):
     def setup(self, ex, state, inst):
         op, sol, i = self.base(ex, state)
         rhs = mk_tt(state, 'right_hand_side', ex.ctx.mark0, order=op.order)
-        state.assume(z3.And(same_ints(rhs.row_dims, op.row_dims, zi(op.order)), FA(0, zi(op.order), lambda j: lst_get(rhs.col_dims, j) == 1)))
         return {'i': i, 'stack_right_rhs': mk_stack(state, 'stack_right_rhs', zi(op.order), 2, ex.ctx.mark0), 'right_hand_side': rhs, 'solution': sol}
 
     def requires(self, S):
@@ -272,7 +301,6 @@ class MicroRhsAls(_Helper):
         op, sol, i = self.base(ex, state)
         d = zi(op.order)
         rhs = mk_tt(state, 'right_hand_side', ex.ctx.mark0, order=op.order)
-        state.assume(z3.And(same_ints(rhs.row_dims, op.row_dims, d), FA(0, d, lambda j: lst_get(rhs.col_dims, j) == 1)))
         return {'i': i, 'stack_left_rhs': mk_stack(state, 'sl', d, 2, ex.ctx.mark0), 'stack_right_rhs': mk_stack(state, 'sr', d, 2, ex.ctx.mark0), 'right_hand_side': rhs, 'solution': sol}
 
     def requires(self, S):
@@ -320,9 +348,6 @@ class UpdateCoreAls(_Helper):
         N = lst_get(sol.ranks, i) * lst_get(sol.row_dims, i) * lst_get(sol.ranks, i + 1)
         mo = SArr([N, N], fresh('mocx', 'bool'), fresh('mobuf'), True)
         mr = SArr([N, 1], fresh('mrcx', 'bool'), fresh('mrbuf'), True)
-        state.assume(z3.And(mo.buf >= ex.ctx.mark0, mr.buf >= ex.ctx.mark0))      # micro systems are fresh arrays (see MicroMatrixAls)
-        if inst['direction'] == 'forward':
-            state.assume(i < zi(op.order) - 1)
         return {'i': i, 'micro_op': mo, 'micro_rhs': mr, 'solution': sol, 'solver': inst['solver'], 'direction': inst['direction']}
 
     def requires(self, S):
@@ -330,6 +355,9 @@ class UpdateCoreAls(_Helper):
         d = zi(sol.order)
         N = lst_get(sol.ranks, i) * lst_get(sol.row_dims, i) * lst_get(sol.ranks, i + 1)
         yield 'i-in-range', z3.And(i >= 0, i < d)
+        if S.inst['direction'] == 'forward':
+            # derived from the code: the forward step shifts the non-orthonormal part into core i + 1
+            yield 'forward:i<order-1', i < d - 1
         yield 'micro-system-shape', z3.And(mo.shape[0] == N, mo.shape[1] == N, mr.shape[0] == N, mr.shape[1] == 1)
         yield 'micro-system-fresh', z3.And(mo.buf >= self._mark(S), mr.buf >= self._mark(S))
         yield 'solver', S.a['solver'] in ('solve', 'lu')
@@ -496,7 +524,6 @@ class MicroMatrixMals(_Helper):
     def setup(self, ex, state, inst):
         op, sol, i = self.base(ex, state)
         d = zi(op.order)
-        state.assume(i < d - 1)
         return {'i': i, 'stack_left_op': mk_stack(state, 'sl', d, 3, ex.ctx.mark0), 'stack_right_op': mk_stack(state, 'sr', d, 3, ex.ctx.mark0), 'operator': op, 'solution': sol}
 
     def requires(self, S):
@@ -534,9 +561,7 @@ class MicroRhsMals(_Helper):
     def setup(self, ex, state, inst):
         op, sol, i = self.base(ex, state)
         d = zi(op.order)
-        state.assume(i < d - 1)
         rhs = mk_tt(state, 'right_hand_side', ex.ctx.mark0, order=op.order)
-        state.assume(z3.And(same_ints(rhs.row_dims, op.row_dims, d), FA(0, d, lambda j: lst_get(rhs.col_dims, j) == 1)))
         return {'i': i, 'stack_left_rhs': mk_stack(state, 'sl', d, 2, ex.ctx.mark0), 'stack_right_rhs': mk_stack(state, 'sr', d, 2, ex.ctx.mark0), 'right_hand_side': rhs, 'solution': sol}
 
     def requires(self, S):
@@ -589,13 +614,10 @@ class UpdateCoreMals(_Helper):
 
     def setup(self, ex, state, inst):
         op, sol, i = self.base(ex, state)
-        state.assume(i < zi(op.order) - 1)
         N = lst_get(sol.ranks, i) * lst_get(sol.row_dims, i) * lst_get(sol.row_dims, i + 1) * lst_get(sol.ranks, i + 2)
         mo = SArr([N, N], fresh('mocx', 'bool'), fresh('mobuf'), True)
         mr_ = SArr([N, 1], fresh('mrcx', 'bool'), fresh('mrbuf'), True)
-        state.assume(z3.And(mo.buf >= ex.ctx.mark0, mr_.buf >= ex.ctx.mark0))
         cap = SMaxRank('max_rank')
-        state.assume(z3.Or(cap.is_inf, cap.val >= 1))
         return {'i': i, 'micro_op': mo, 'micro_rhs': mr_, 'solution': sol, 'solver': inst['solver'], 'threshold': SNum('threshold', nonneg=z3.BoolVal(True)),
                 'max_rank': cap, 'direction': inst['direction']}
 
@@ -657,9 +679,15 @@ class Mals(Contract):
     def setup(self, ex, state, inst):
         p = Als.setup(self, ex, state, inst)
         cap = SMaxRank('max_rank')
-        state.assume(z3.Or(cap.is_inf, cap.val >= 1))
         p.update({'threshold': SNum('threshold', nonneg=z3.BoolVal(True)), 'max_rank': cap})
         return p
+
+    def domain_extra(self, S):
+        mr = S.a.get('max_rank', INF)
+        if isinstance(mr, SMaxRank):
+            yield 'max_rank>=1', z3.Or(mr.is_inf, mr.val >= 1)
+        elif not isinstance(mr, SInf):
+            yield 'max_rank>=1', zi(mr) >= 1
 
     def requires(self, S):
         yield from Als.requires(self, S)
